@@ -39,9 +39,9 @@ Definition judge (q : quirks) (cmd : string) (chain : list level) (proj_depth : 
   let fs := map (fun j => {| f_given := j_given j; f_lang := j_lang j; f_raw := j_raw j |}) files in
   let ss := map (fun j => {| s_rel := j_rel j; s_lang := j_lang j; s_raw := j_raw j |}) files in
   let impl := map j_impl files in
-  let is_dry := String.eqb cmd "dry" in
-  let spec := if is_dry then dry_spec root_pats sg configured ss else spec_result root_pats sg configured ss in
-  let run := fun c => if is_dry then dry_result c e sg configured fs else run_result c e sg configured fs in
+  let xf := find (fun x => String.eqb (fst x) cmd) xfile_commands in   (* cross-file commands and their gate *)
+  let spec := match xf with Some (_, gate) => xfile_spec gate root_pats sg configured ss | None => spec_result root_pats sg configured ss end in
+  let run := fun c => match xf with Some (_, gate) => xfile_result_fast gate c e sg configured fs | None => run_result c e sg configured fs end in
   (match find_sig cmd with Some _ => true | None => false end && (find_root_len root_markers chain =? proj_depth))
   :: same impl spec
   :: same (run ideal) spec
